@@ -241,6 +241,18 @@ Theorem C16_text_use : forall p b a d rest prev acc ts u,
 Proof. exact text_use_line. Qed.
 Print Assumptions C16_text_use.
 
+
+(* the same for bytes literals (Literal[b"..."]): the b prefix belongs to the token *)
+Theorem C16_text_use_bytes : forall b a d rest prev acc ts u,
+  wf_bytes d -> before_ok b = true -> after_ok a = true ->
+  text_use b a = Some u ->
+  tok_line (LDef prev) acc (b ++ py_repr_bytes d ++ a ++ rest) = Some ts ->
+  exists post, ts = rev acc ++ map TkChar b ++ TkBytes d :: post /\
+    uses_from (rev (map TkChar b) ++ acc) (TkBytes d :: post)
+    = (u, VB d) :: uses_from (TkBytes d :: rev (map TkChar b) ++ acc) post.
+Proof. exact text_use_line_bytes. Qed.
+Print Assumptions C16_text_use_bytes.
+
 (* ... at every repr()/ascii() row of the table read from /repo whose template decides the role *)
 Theorem C16_site_use : forall st, In st splice_sites -> s_kind st = KRepr \/ s_kind st = KAscii ->
   forall u, site_use st = Some u ->
@@ -315,6 +327,15 @@ Theorem C16_literal_repr_eval : forall p v rest,
             /\ eval_lit (t ++ rest) = Some (o_prim v, rest).
 Proof. exact literal_repr_eval. Qed.
 Print Assumptions C16_literal_repr_eval.
+
+
+(* the link to the splice table: what literal_repr returns for a str / bytes payload - exact, or an instance
+   of a subclass with ANY __repr__ - is the site text of a repr row (C16_site_line, C16_site_use apply to it) *)
+Theorem C16_literal_repr_site : forall p d ex r,
+  lr_model p literal_repr_bases literal_repr_hit literal_repr_fallback (mk_obj (PyLit.LStr d) ex r) = Some (site_text KRepr p d)
+  /\ lr_model p literal_repr_bases literal_repr_hit literal_repr_fallback (mk_obj (LBytes d) ex r) = Some (py_repr_bytes d).
+Proof. exact (fun p d ex r => conj (literal_repr_str p d ex r) (literal_repr_bytes p d ex r)). Qed.
+Print Assumptions C16_literal_repr_site.
 
 (* the pre-12c7fd8 renderer (repr(value)) emits the subclass's text; int before bool renders True as 1 *)
 Theorem C16_literal_repr_refuted :
